@@ -4,7 +4,7 @@ import concurrent.futures, os, sys
 sys.path.insert(0, os.path.join(os.path.dirname(os.path.abspath(__file__)), "..", "tools"))
 import vlib, runner, gcgen, edgecover
 
-BUGS = {"tls": "SafeCollect", "coop": "DownClean", "stop": "DelWorks", "noclear": "Once"}
+BUGS = {"tls": "SafeCollect", "coop": "DownClean", "stop": "DelWorks", "noclear": "Once", "nested": "DownClean", "tearonce": "DownClean"}
 
 
 def setup(chk, tier, want_bugs):
@@ -15,6 +15,7 @@ def setup(chk, tier, want_bugs):
         f_exh = ex.submit(vlib.tlc, "Heap", "Heap_quick.cfg" if quick else "Heap_thorough.cfg", wd, 8 if quick else 14,
                           "6g" if quick else "24g", (), None, 3000)
         f_edge = ex.submit(vlib.tlc, "Heap", "Heap_edges.cfg", wd, 4, "4g")
+        f_spawn = ex.submit(vlib.tlc, "Heap", "Heap_spawn.cfg", wd, 4, "4g")        # finalisers that allocate (during a sweep, during teardown)
         f_bug = {b: ex.submit(vlib.tlc, "Heap", "Heap_bug_%s.cfg" % b, wd, 2, "2g") for b in want_bugs}
         lib = f_lib.result()
         harness = vlib.build_harness_wb(lib, ["h_gc.c"], os.path.join(wd, "h_gc"), ("GC.c",), chk.notes)
@@ -22,6 +23,10 @@ def setup(chk, tier, want_bugs):
         bugs = {b: f.result() for b, f in f_bug.items()}
     chk.model(r_exh, "Heap/exhaustive")
     chk.model(r_edge, "Heap/Heap_edges.cfg")
+    r_spawn = f_spawn.result()
+    chk.model(r_spawn, "Heap/Heap_spawn.cfg")
+    if not r_spawn.ok:
+        print("MODEL-DRIFT module=Heap (spawners): %s" % r_spawn.invariant, flush=True)
     if not r_exh.ok:
         print("MODEL-DRIFT module=Heap: %s" % r_exh.invariant, flush=True)
         chk.notes.append("Heap: %s violated on the model" % r_exh.invariant)
